@@ -2,7 +2,7 @@
    FULL statement (NOT proved, open): for every accepted handler, signal argument values and world, emitting the signal performs the
    effects Sem.run_handler prescribes, in that order, and nothing else.  Decided per generated handler by executing the real output
    (vlib/c13.py); the theorems fix the reference semantics. *)
-From QV Require Import model.Base model.Lang model.Sem proofs.SemProofs proofs.ScopeProofs proofs.FrameProofs.
+From QV Require Import model.Base model.Lang model.Sem proofs.SemProofs proofs.ScopeProofs proofs.FrameProofs model.Overload proofs.OverloadProofs.
 Open Scope Z_scope.
 
 (* effects are recorded in source order: the write of the first statement precedes the write of the second in the trace (most
@@ -53,3 +53,23 @@ Print Assumptions C13_partial_block_effects_in_source_order.
 Theorem C13_partial_return_stops : forall names this st s, run_handler names this st (CStmt (SBlock [SReturn None; s])) [] = Def st.
 Proof. exact return_stops. Qed.
 Print Assumptions C13_partial_return_stops.
+
+(* ---- which signal a handler is connected to (uigen/objcode.rs uniquify_methods), for EVERY set of metatype entries of one name ----
+   connected only to an unambiguous signal: every entry found for the name is a signal with the same return type whose arguments are the
+   leading arguments of the connected entry, which therefore carries the most arguments *)
+Theorem C13_connected_signal_is_the_declared_one : forall ms args, callback_verdict ms = VConnect args ->
+  exists m, In m ms /\ m_args m = args /\ m_kind m = 0%N /\
+    forall x, In x ms -> m_kind x = 0%N /\ m_ret x = m_ret m /\ prefixb (m_args x) args = true.
+Proof. exact connect_means_unambiguous_signal. Qed.
+Print Assumptions C13_connected_signal_is_the_declared_one.
+Theorem C13_connected_variant_carries_most_arguments : forall ms m, uniquify ms = Some m -> forall x, In x ms -> (arity x <= arity m)%nat.
+Proof. exact uniquify_most_arguments. Qed.
+Print Assumptions C13_connected_variant_carries_most_arguments.
+(* handlers on ambiguous overloads are rejected: two entries neither of which extends the other leave no answer, however many entries there are ... *)
+Theorem C13_ambiguous_overloads_are_rejected : forall ms x y, In x ms -> In y ms -> ~ comparable x y -> uniquify ms = None.
+Proof. exact uniquify_rejects_ambiguous. Qed.
+Print Assumptions C13_ambiguous_overloads_are_rejected.
+(* ... and nothing else is refused as ambiguous: pairwise default-argument variants always collapse *)
+Theorem C13_default_argument_variants_collapse : forall ms, ms <> [] -> (forall x y, In x ms -> In y ms -> comparable x y) -> uniquify ms <> None.
+Proof. exact uniquify_complete. Qed.
+Print Assumptions C13_default_argument_variants_collapse.
